@@ -63,11 +63,15 @@ def judge_refinement(ctx, die, before_ref, before_block, before_fixed, d, what, 
             ctx.violation("count", f"{what}: {len(new_ref)} refinable regions, asked for {'exactly' if exact_count else 'at least'} {count}")
     # parent matching
     parents = [(XR.from_cwh(*b[1:5]), b[5]) for b in before_ref]
+    pf = [(b[1] - b[3] / 2, b[1] + b[3] / 2, b[2] - b[4] / 2, b[2] + b[4] / 2) for b in before_ref]     # float pre-filter only
     kids = [[] for _ in parents]
     tl = F(1e-9) * F(scale)
+    ftl = 1e-6 * scale
     for r in new_ref:
         X = XR.of(r)
-        owner = [k for k, (P, tag) in enumerate(parents) if P.contains_point(X.cx, X.cy)]
+        cx, cy = r.center.x, r.center.y
+        cand = [k for k, q in enumerate(pf) if q[0] - ftl <= cx <= q[1] + ftl and q[2] - ftl <= cy <= q[3] + ftl]
+        owner = [k for k in cand if parents[k][0].contains_point(X.cx, X.cy)]
         owner = [k for k in owner if X.inside_margin(parents[k][0]) >= -tl]
         if len(owner) != 1:
             ctx.violation("no_unique_parent", f"{what}: region {X} lies inside {len(owner)} former refinable regions")
@@ -119,6 +123,9 @@ def check(case, ctx):
         ctx.count("no_refinable_region_skipped")
         return
     for (r, n) in case["steps"]:
+        if len(die.specialized_regions) + len(die.ground_regions) > 300:
+            ctx.count("sequence_cut_short_by_size_cap")
+            break
         if r < 2:
             ctx.count("r_below_2")
         bref, bb, bf = snap(die.specialized_regions + die.ground_regions), snap(die.blockages), snap(die.fixed_regions)
